@@ -271,18 +271,20 @@ def search(run: lib.Run, broken):
     for p in pairs:
         g = p["group"]
         base = {"tag": p["tag"], "plain_type": repr(g.pytys[p["plain"]]), "wrapped_type": repr(g.pytys[p["wrapped"]]),
-                "module_source": g.src}
+                "module_source": g.src, "ref_depth": getattr(g, "ref_depth", 0),
+                "env": {"module": g.env["module"], "defs": {str(k): v for k, v in g.env["defs"].items()}},
+                "plain_desc": g.roots[p["plain"]], "wrapped_desc": g.roots[p["wrapped"]]}
         stats["evaluations"] += 1
         if not same_outcome(*p["m"]):
             fails.append(dict(base, symptom="marshaller of the wrapped annotation behaves differently",
-                              input=repr(p["value"])[:300], got=repr(p["m"][1])[:300], expected=repr(p["m"][0])[:300],
+                              input=repr(p["value"])[:3000], got=repr(p["m"][1])[:300], expected=repr(p["m"][0])[:300],
                               key=json.dumps(["C11-m", p["tag"], base["wrapped_type"][:120]])))
         for tag, x, a, b in p["u"]:
             stats["evaluations"] += 1
             stats["nontrivial"] += a[0] == "ok"
             if not same_outcome(a, b):
                 fails.append(dict(base, symptom="unmarshaller of the wrapped annotation behaves differently",
-                                  input=repr(x)[:300], got=repr(b[1])[:300], expected=repr(a[1])[:300],
+                                  input=repr(x)[:3000], got=repr(b[1])[:300], expected=repr(a[1])[:300],
                                   key=json.dumps(["C11-u", p["tag"], base["wrapped_type"][:120], repr(x)[:80]])))
     qualified_refs(fails, stats)
     codec_chains(fails, stats)
@@ -306,12 +308,46 @@ def search(run: lib.Run, broken):
     return [v[1] for v in best.values()]
 
 
+def _tup(x):
+    if isinstance(x, list):
+        return tuple(_tup(y) for y in x) if (x and isinstance(x[0], str)) else [_tup(y) for y in x]
+    return x
+
+
 def replay(payload):
-    return {"fails": False, "note": "replay: exec module_source; compare unmarshal(plain_type, input) with unmarshal(wrapped_type, input)"}
+    """rebuild the module, then compare the routines of the plain and of the wrapped annotation on the input"""
+    if payload.get("tag") == "codec-chain":
+        fails, stats = [], {"evaluations": 0, "nontrivial": 0}
+        codec_chains(fails, stats)
+        return {"fails": bool(fails), "failures": [{k: v for k, v in f.items() if k != "module_source"} for f in fails[:5]]}
+    if "env" not in payload or "plain_desc" not in payload:
+        return {"fails": False, "note": "replay needs env + plain_desc + wrapped_desc (see module_source for a manual replay)"}
+    env = {"module": payload["env"]["module"] + "_replay",
+           "defs": {(int(k) if k.isdigit() else k): _tup(v) for k, v in payload["env"]["defs"].items()}}
+    roots = [_tup(payload["plain_desc"]), _tup(payload["wrapped_desc"])]
+    g = coremodel.Group(env, roots, coreprop.suppressed())
+    g.ref_depth = payload.get("ref_depth", 0)
+    if roots[1][0] == "ref" and roots[1][2] == "str":
+        g.pytys[1] = universe.cname(roots[1][1])
+    try:
+        import re
+        src = re.sub(r"<(\w+)\.(\w+): [^>]*>", r"\1.\2", payload["input"])
+        ns = dict(g.mod.__dict__)
+        exec("from decimal import Decimal\nfrom fractions import Fraction\nfrom uuid import UUID\nimport datetime\n"
+             "from pathlib import *\nfrom collections import *", ns)
+        try:
+            x = eval(src, ns)
+        except Exception as e:
+            return {"fails": False, "note": f"input cannot be rebuilt from its repr: {e!r}"}
+        which = "m" if "marshaller" in payload.get("symptom", "") else "u"
+        a, b = g.observe(which, 0, x), g.observe(which, 1, x)
+        return {"fails": not same_outcome(a, b), "plain": repr(a)[:300], "wrapped": repr(b)[:300]}
+    finally:
+        g.close()
 
 
 def reproduces(entry):
-    return False
+    return replay(entry["replay"])["fails"]
 
 
 def matches(entry, failure):
